@@ -28,6 +28,7 @@ class C03(Prop):
     id = "C03"
     trace_module = "TraceClifford"
     trace_cfg = "TraceClifford.cfg"
+    suite_family = ('clifford', ('transform',))
     backends = ("py", "torch")
     chunk = 1500
     assumptions = [
@@ -98,6 +99,28 @@ class C03(Prop):
             ins = [[rng.randrange(4) for _ in range(n)] + [rng.randrange(4)] for _ in range(40)]
             yield {"k": "tf", "kind": "list", "m": m, "ins": ins}
             yield {"k": "tf", "kind": "kernel", "m": m, "ins": ins, "pkg": "py"}
+        # one wide register: N = 40, a product of random one-qubit Cliffords (with two-qubit blocks in thorough),
+        # applied to > 1024 low-weight operators with all phases (lists longer / registers wider than any fast path
+        # or integer-packing threshold is likely to assume)
+        n = 40
+        m40 = []
+        for q in range(n):
+            m1 = rng.choice(self.maps[1])
+            for row in m1:
+                w = [0] * n + [row[-1]]
+                w[q] = row[0]
+                m40.append(w)
+        ops40 = []
+        for i in range(n):
+            for j in range(i + 1, n):
+                w = [0] * n + [rng.randrange(4)]
+                w[i], w[j] = rng.randrange(1, 4), rng.randrange(1, 4)
+                ops40.append(w)
+        rng.shuffle(ops40)
+        ops40 = ops40[:1100] + [[rng.randrange(4) for _ in range(n)] + [rng.randrange(4)] for _ in range(60)]
+        yield {"k": "tf", "kind": "list", "m": m40, "ins": ops40, "pkg": "py"}
+        yield {"k": "tf", "kind": "poly", "m": m40, "ins": ops40[:1030], "pkg": "py"}
+        yield {"k": "tf", "kind": "list", "m": m40, "ins": ops40[:200], "pkg": "torch"}
         # kernels: pauli_combine with arbitrary selection matrices, ps0
         for n in (1, 2, 3):
             allp = enum.paulis(n)
